@@ -11,8 +11,8 @@ BuildEnvironment → withUserProvidedEnv` (src/core/build_env.go), `Configuratio
   depend on the caller and are supplied by the harness from the real accessors.
 * A Go `map[string]string` under construction is an association list with `set` (last write wins); the final
   `ToSlice()` sorts the `k=v` strings.
-* Go maps that are *iterated* while writing (`target.Env`, `config.BuildEnv`, named groups) are processed in list
-  order, which stands for the arbitrary iteration order.
+* Go maps that are *iterated* while writing (`config.BuildEnv`, named groups; `target.Env` unless the code sorts its
+  keys first — fact `userEnvSorted`) are processed in list order, which stands for the arbitrary iteration order.
 -/
 namespace PlzVerif.Env
 open PlzVerif.RuleHash
@@ -185,14 +185,16 @@ def targetEnv (cfg : Cfg) (t : Target) (d : Derived) (c : Caller) : Env :=
   | some l => l.foldl (fun acc e => acc.set e (getenv c e)) env
   | none => env
 
-/-- `withUserProvidedEnv`: entries of `target.Env`, in the map's iteration order, `$`-expanded against the
-    environment built so far. -/
-def withUserEnv (userEnv : List (Bytes × Bytes)) (env : Env) : Env :=
-  userEnv.foldl (fun acc kv =>
+/-- `withUserProvidedEnv`: entries of `target.Env` `$`-expanded against the environment built so far.
+    `sorted` (regenerated fact): the keys are collected and sorted first; otherwise the entries are applied in the
+    map's iteration order (the list's order stands for that arbitrary order). -/
+def withUserEnv (sorted : Bool) (userEnv : List (Bytes × Bytes)) (env : Env) : Env :=
+  (keysOrder sorted userEnv).foldl (fun acc kv =>
     let v := if kv.2.contains 36 then osExpand (fun k => match acc.get? k with | some x => x | none => 36 :: k) kv.2 else kv.2
     acc.set kv.1 v) env
 
-def buildEnvironment (cfg : Cfg) (t : Target) (d : Derived) (c : Caller) : Env :=
+/-- `BuildEnvironment` up to (not including) `withUserProvidedEnv`. -/
+def preUserEnv (cfg : Cfg) (t : Target) (d : Derived) (c : Caller) : Env :=
   let env := targetEnv cfg t d c
   let env := (((env.set ([84, 77, 80, 95, 68, 73, 82] : Bytes) d.tmpDir).set ([84, 77, 80, 68, 73, 82] : Bytes) d.tmpDir).set ([79, 85, 84, 83] : Bytes) (join sp d.outEnv)).set ([72, 79, 77, 69] : Bytes) d.tmpDir
   let env := env.set ([80, 89, 84, 72, 79, 78, 72, 65, 83, 72, 83, 69, 69, 68] : Bytes) ([52, 50] : Bytes)
@@ -216,7 +218,10 @@ def buildEnvironment (cfg : Cfg) (t : Target) (d : Derived) (c : Caller) : Env :
   let env := if cfg.bazelCompat then
       (env.set ([71, 69, 78, 68, 73, 82] : Bytes) (cfg.repoRoot ++ ([47, 112, 108, 122, 45, 111, 117, 116, 47, 103, 101, 110] : Bytes))).set ([66, 73, 78, 68, 73, 82] : Bytes) (cfg.repoRoot ++ ([47, 112, 108, 122, 45, 111, 117, 116, 47, 98, 105, 110] : Bytes))
     else env
-  withUserEnv t.env env
+  env
+
+def buildEnvironment (sorted : Bool) (cfg : Cfg) (t : Target) (d : Derived) (c : Caller) : Env :=
+  withUserEnv sorted t.env (preUserEnv cfg t d c)
 
 /-- `BuildEnv.ToSlice()`: `k=v` strings, sorted. -/
 def toSlice (e : Env) : List Bytes := isort bytesLt (e.map fun kv => kv.1 ++ [61] ++ kv.2)
